@@ -67,6 +67,9 @@ var loopShapes = []loopShape{
 	{"accessor-rec", `var o = {n: 300, get x() { if (this.n < 1) { return 1; } this.n--; var a = this.x + this.x; this.n++; return a; }}; return {r: o.x};`, true, 64, 0},
 	// whether it ends depends on the bindings: the same compiled program has ended quickly a hundred times before
 	{"data-loop", `var n = _.bindings.n; while (n != 0.5) { n = n - 1; if (n < -1000) { n = 1000; } } return {};`, true, 64, 100},
+	// never ends while the text of a thrown value is computed (its toString): during the body, and after the body returned
+	{"throw-tostring-loop", `throw {toString: function() { for(;;){} }};`, true, 64, 0},
+	{"getter-throw-tostring-loop", `return {get a() { throw {toString: function() { for(;;){} }}; }};`, true, 64, 0},
 	{"unbounded-rec", `function f(n){ return f(n+1)+1; } return {x: f(0)};`, true, 4, 0},
 	{"finite-loop", `var s=0; for(var i=0;i<2000;i++){ s+=i; } return {s: s};`, false, 64, 0},
 	{"finite-rec", `function r(n){ return n<=0 ? 0 : 1 + r(n-1); } return {r: r(300)};`, false, 64, 0},
